@@ -256,6 +256,17 @@ def shrink(prop, case, fails, budget_s=40):
         if time.time() > t_end:
             return False
         c = dict(best, params=params)
+        # a simplified tree must still be one the public constructors accept on the unchanged library
+        # (e.g. all members of a Label of one type): otherwise "it fails" only says the case is malformed
+        for sname in getattr(prop, "SHRINK_SPECS", ["spec"]) + ["spec2"]:
+            sp = params.get(sname) if isinstance(params, dict) else None
+            if isinstance(sp, dict) and "k" in sp:
+                try:
+                    import gen as _gen
+
+                    _gen.build(sp)
+                except Exception:  # noqa: BLE001
+                    return False
         try:
             if fails(c):
                 best = c
